@@ -229,6 +229,12 @@ def run(ctx, configs=None):
         else:
             ok = False
         ctx.ob("C11.gate", ok, "the command loop must be entered only after the handshake returned Ok", fn=ro.path, construct="loop-after-init", where=ro.where(b2))
+        # authentication happens in the handshake and nowhere else: a second call site (re-authentication in the command loop, a helper
+        # of a new command) is a second gate with its own, unchecked, rejection path
+        callers_ = sorted({b_.path for b_ in prog.non_test_fns() for _, t_ in b_.calls() if effects.is_shim_call(t_) and not t_["func"].get("rpath")
+                           and t_["func"].get("name") == "after_authentication"})
+        ctx.ob("C11.gate", callers_ == [fi.path], "after_authentication is called from %s (need the handshake function %s only: exactly once per connection, before any command)" % (callers_, fi.path),
+               fn=fi.path, construct="sole-authenticator", nontrivial=False)
         n_ok = n_rej = 0
         for p in enumerate_paths(fi, max_visits=1, limit=100000):
             if p.end != "return":
